@@ -235,7 +235,7 @@ def main(prop: str, tier: str) -> int:
         'distinct = distinct sequences of (event, session, number, uid)')
     run.assumptions += [
         'lock acquisitions are treated as possible suspension points (checkpoint subsystem)',
-        'dict backend; UIDVALIDITY constant during a run',
+        'dict backend (maildir: the random schedules only, C01 C02 C16 C17); UIDVALIDITY constant during a run',
         'glass-box reads of SelectedMailbox.messages._sorted / MailboxData._messages']
 
     quick = tier == 'quick'
@@ -317,6 +317,74 @@ def main(prop: str, tier: str) -> int:
         traces.append(sr.events)
         meta.append({'kind': 'random-schedule', 'schedule': log})
 
+    # 3m. the same kind of schedules on the maildir backend (anchored in
+    # pymap/backend/maildir/mailbox.py: every session has its own MailboxSet and learns of
+    # the others through the directory; IDLE polls once a (virtual) second)
+    if prop in ('C01', 'C02', 'C16', 'C17'):
+        nm = (150 if quick else 2000) if prop != 'C17' else (250 if quick else 3000)
+        for i in range(nm):
+            nsess = 2 if rng.random() < 0.7 else 3
+            if prop == 'C16':
+                sessions, drive = random_schedule(
+                    rng, nsess, rng.randint(3, 8), idle=True, idle_prob=0.7, uid_base=0,
+                    gate_idlers=rng.random() < 0.6, ro_prob=0.1, micro=rng.choice([0.0, 0.5, 0.9]),
+                    weights={'append': 25, 'expunge': 15, 'select': 0, 'examine': 0, 'close': 0})
+            elif prop == 'C17':
+                sessions, drive = random_schedule(
+                    rng, 3 if rng.random() < 0.6 else 2, rng.randint(4, 11), idle=False,
+                    ro_prob=0.35, recent_flags=True, fetch_after_select=True, uid_base=0,
+                    initial_select=0.5, two_boxes=True,
+                    weights={'select': 14, 'examine': 10, 'close': 8, 'append': 22, 'copy': 12,
+                             'fetch': 6, 'store': 10, 'expunge': 3, 'move': 5, 'search': 0,
+                             'uidexpunge': 0, 'check': 0})
+            else:
+                idle = rng.random() < 0.3
+                sessions, drive = random_schedule(rng, nsess, rng.randint(3, 7), idle=idle,
+                                                  uid_base=0, gate_idlers=rng.random() < 0.3,
+                                                  micro=rng.choice([0.0, 0.0, 0.5]))
+            sr = SyncRun(backend='maildir',
+                         init_flags=[rng.choice([(), (), ('\\Seen',), ('\\Deleted',)])
+                                     for _ in range(rng.randint(2, 4))],
+                         sessions=sessions, controlled=True, claim_recent=rng.random() < 0.5)
+            try:
+                log = drive(sr)
+            finally:
+                sr.close()
+            for e in sr.errors:
+                run.notes.setdefault('harness_errors', []).append(e)
+            traces.append(sr.events)
+            meta.append({'kind': 'random-schedule', 'backend': 'maildir', 'schedule': log})
+        run.notes['maildir_schedules'] = nm
+        if prop == 'C02':
+            # directed: a \\Seen-setting FETCH of session a with session b's flag change placed
+            # after each of its checkpoints
+            for bcmd in (('store', True, '1:*', '-', False, ('\\Seen',)),
+                         ('store', True, '2', '+', False, ('\\Flagged',)),
+                         ('store', False, '1:*', '=', True, ('\\Deleted',))):
+                for k in range(0, 9):
+                    sr = SyncRun(backend='maildir', init_flags=[('\\Seen',), (), ()],
+                                 sessions=['a', 'b'], controlled=True, claim_recent=True)
+                    try:
+                        for x in ('a', 'b'):
+                            sr.issue(x, ('select', 'INBOX'))
+                            sr.finish(x)
+                            sr.issue(x, ('fetch', True, '1:*', False))
+                            sr.finish(x)
+                        sr.issue('a', ('fetch', True, '1:*', True))
+                        for _ in range(k):
+                            if sr.busy('a'):
+                                sr.step('a')
+                        sr.issue('b', bcmd)
+                        sr.finish('b')
+                        sr.finish('a')
+                        sr.quiesce()
+                        sr.probe()
+                    finally:
+                        sr.close()
+                    traces.append(sr.events)
+                    meta.append({'kind': 'directed-fetch-vs-store', 'backend': 'maildir',
+                                 'placement': k, 'other': list(map(str, bcmd))})
+
     # 3a. C01/C02: every pair (and a seeded sample of triples) of mutations by two sessions
     # where the second session has not been told about the first one's change
     if prop in ('C01', 'C02', 'C04'):
@@ -350,7 +418,7 @@ def main(prop: str, tier: str) -> int:
         if clause and not mine:
             other[clause] = other.get(clause, 0) + 1
         if mine:
-            sig = classify(prop, clause, ev, line, detail)
+            sig = classify(prop, clause, ev, line, detail, meta[i - 1].get('backend', 'dict'))
             run.violation(f'{clause} at event {line}: {ev[line - 1]}',
                           {'check': prop, 'meta': meta[i - 1], 'clause': clause,
                            'line': line, 'events': ev[max(0, line - 25):line]}, sig)
@@ -469,12 +537,54 @@ def lifecycle_part(run, rng, quick, traces, meta) -> None:
         meta.append({'kind': 'lifecycle', 'actions': [p[0] for p in path], 'commands': log})
 
 
-def classify(prop, clause, events, line, detail=''):
+def classify(prop, clause, events, line, detail='', backend='dict'):
     """signature of a failing execution for known-finding matching (narrow:
     derived from the failing history itself)"""
     if clause == 'C17_FirstRWGetsIt' and detail.isdigit():
         return 'StaleRecentPick' if stale_pick(events[:line], int(detail)) else None
+    if clause == 'C02_ConvergedFlags' and backend == 'maildir' and seen_race(events, line):
+        return 'MaildirFetchSeenRace'
     return None
+
+
+def seen_race(events, line: int) -> bool:
+    """True iff the probe that fails is of a session that ran a \\Seen-setting FETCH whose
+    execution overlapped another session's STORE, and the only disagreement is \\Seen on
+    messages that FETCH reported: the maildir store returns the message as it was when the
+    FETCH updated it, while the session's snapshot is the later rescan."""
+    probe = events[line - 1]
+    if probe.get('e') != 'probe':
+        return False
+    s = probe['s']
+    truth = dict(zip(probe['uids'], probe['flags']))
+    # what the session was told last, per uid
+    told, view = {}, []
+    spans, open_ = [], {}
+    for i, ev in enumerate(events[:line - 1]):
+        if ev['e'] == 'start':
+            open_[ev['s']] = (i, ev['cmd'])
+        elif ev['e'] == 'tagged' and ev['s'] in open_:
+            a, cmd = open_.pop(ev['s'])
+            spans.append((ev['s'], a, i, cmd))
+        if ev.get('s') == s and ev['e'] == 'fetch' and ev.get('hasflags') and ev.get('uid'):
+            told[ev['uid']] = (i, set(ev['flags']) - {'\\Recent'})
+    bad_uids = [u for u, fl in truth.items()
+                if u in told and told[u][1] != set(fl)]
+    if not bad_uids:
+        return False
+    for u in bad_uids:
+        i, fl = told[u]
+        if fl ^ set(truth[u]) != {'\\Seen'}:
+            return False
+        mine = [sp for sp in spans if sp[0] == s and sp[1] <= i <= sp[2]
+                and sp[3][0] == 'fetch' and len(sp[3]) > 3 and sp[3][3]]
+        if not mine:
+            return False
+        a, b = mine[-1][1], mine[-1][2]
+        if not any(sp[0] != s and sp[3][0] == 'store' and sp[1] <= b and sp[2] >= a
+                   for sp in spans):
+            return False
+    return True
 
 
 def stale_pick(events, uid: int) -> bool:
